@@ -12,8 +12,9 @@ git -C /repo worktree add -q --detach $W HEAD || exit 9
 cd $W
 cmd=$(python3 -c "import json;print(json.load(open('$S/meta.json'))['demo_cmd'])")
 t=$(echo "$cmd" | grep -o -- '--test [a-z0-9_]*' | head -1 | cut -d' ' -f2)
+first=$(echo "$cmd" | grep -o 'cargo test[^#&;]*' | head -1)
 flags=""
-case "$id" in C08-B|C11-A) flags="--no-default-features --features math_funcs";; C20-B) flags="--features serde";; esac
+if echo "$first" | grep -q -- "--no-default-features"; then flags="--no-default-features --features math_funcs"; elif echo "$first" | grep -q -- "--features serde"; then flags="--features serde"; fi
 cp $S/demo.rs tests/$t.rs
 cargo test --offline $flags --test $t > /tmp/sw/$id.clean.log 2>&1; clean=$?
 applies=0; git apply $S/patch.diff 2>/tmp/sw/$id.apply.log || applies=1
